@@ -416,6 +416,46 @@ func init() {
 					r.ok(key, fnName(fn), c.pos(fn.Pos()), fmt.Sprintf("%d returns of the 1-hit branch, each with the hit consumed", nret))
 				}
 			}
+			// the clean fast path walks only `Actual` and replays the freq/norm/location
+			// entries of the postings it steps over: exact only when Actual is the
+			// list's own bitmap.  ReplaceActual can swap ActualBM at any time, so the
+			// only sound guard is the identity test postings.postings == ActualBM
+			// (or there being no list at all), however it is spelled.
+			key = fnName(fn) + "/clean-path-guard"
+			clean := c.MustFn("(*PostingsIterator).nextDocNumAtOrAfterClean")
+			for _, site := range c.callsTo(clean) {
+				sf := site.Parent()
+				names := []string{"postings == nil", "postings.postings == ActualBM"}
+				isLoadOf := func(v ssa.Value, suffix string) bool {
+					ld, ok := v.(*ssa.UnOp)
+					return ok && ld.Op == token.MUL && strings.HasSuffix(accessPath(ld.X), suffix) && strings.Count(accessPath(ld.X), ".") == strings.Count(suffix, ".")
+				}
+				atoms := func(v ssa.Value) (int, bool, bool) {
+					if neg, ok := cmpNilAtom(v, func(x ssa.Value) bool { return isLoadOf(x, ".postings") }); ok {
+						return 0, neg, true
+					}
+					if bin, ok := v.(*ssa.BinOp); ok && (bin.Op == token.EQL || bin.Op == token.NEQ) {
+						a, b := bin.X, bin.Y
+						if isLoadOf(a, ".ActualBM") {
+							a, b = b, a
+						}
+						if isLoadOf(a, ".postings.postings") && isLoadOf(b, ".ActualBM") {
+							return 1, bin.Op == token.NEQ, true
+						}
+					}
+					return 0, false, false
+				}
+				be := &boolExec{fn: sf, atoms: atoms, n: 2}
+				ok, cex, n := be.impliedAt(site.Block(), func(asg uint) bool { return asg&1 != 0 || asg&2 != 0 })
+				switch {
+				case n == 0:
+					r.undecided(key, fnName(sf), c.pos(site.Pos()), "the call of the clean path is unreachable in the boolean abstraction")
+				case !ok:
+					r.bad(key, fnName(sf), c.pos(site.Pos()), "the clean fast path can be taken when "+describeAsg(names, cex)+": after ReplaceActual the postings stepped over in `all` but absent from Actual are not replayed, so frequencies, norms and locations of earlier documents are returned")
+				default:
+					r.ok(key, fnName(sf), c.pos(site.Pos()), "clean path only when postings == nil || postings.postings == ActualBM")
+				}
+			}
 			// general branch: Actual == nil || !HasNext guard dominates every Actual.Next()
 			key = fnName(fn) + "/exhausted-guard"
 			okGuard := true
@@ -558,3 +598,74 @@ func coveredFrom(from *ssa.BasicBlock, via map[*ssa.BasicBlock]bool, to *ssa.Bas
 	}
 	return !dfs(from)
 }
+
+// isChunkOfPosting: v is a posting's chunk number — a quotient by the list's
+// chunkSize, or a phi all of whose (non-self) edges are such.
+func isChunkOfPosting(v ssa.Value, seen map[ssa.Value]bool) bool {
+	if seen[v] {
+		return true
+	}
+	seen[v] = true
+	switch x := stripConv(v).(type) {
+	case *ssa.BinOp:
+		return x.Op == token.QUO && strings.HasSuffix(exprSig(stripConv(x.Y), 0), ".chunkSize")
+	case *ssa.Phi:
+		for _, e := range x.Edges {
+			if e == ssa.Value(x) {
+				continue
+			}
+			if !isChunkOfPosting(e, seen) {
+				return false
+			}
+		}
+		return len(x.Edges) > 0
+	}
+	return false
+}
+
+func init() {
+	register(&Rule{
+		Name:  "REPLAY-COUNT",
+		Floor: 1,
+		Doc:   "in the skip loop of the clean fast path the number of entries to replay is reset by comparing the chunk of the posting just stepped over with the chunk of the previous posting: both operands of a chunk comparison inside the loop are chunk numbers of postings (quotients by chunkSize, possibly loop-carried), never the chunk the decoders currently hold — which chunk is loaded says nothing about how many entries of the new chunk were stepped over",
+		Run: func(c *Ctx, scope string, r *Report) {
+			fn := c.MustFn("(*PostingsIterator).nextDocNumAtOrAfterClean")
+			key := fnName(fn) + "/reset-compares-postings"
+			n := 0
+			for _, h := range fn.Blocks {
+				if !isLoopHeader(h) {
+					continue
+				}
+				for b := range loopBody(h) {
+					ifi, ok := b.Instrs[len(b.Instrs)-1].(*ssa.If)
+					if !ok {
+						continue
+					}
+					bin, ok := ifi.Cond.(*ssa.BinOp)
+					if !ok || (bin.Op != token.EQL && bin.Op != token.NEQ) {
+						continue
+					}
+					qx := isChunkOfPosting(bin.X, map[ssa.Value]bool{})
+					qy := isChunkOfPosting(bin.Y, map[ssa.Value]bool{})
+					if !qx && !qy {
+						continue
+					}
+					n++
+					if qx && qy {
+						r.ok(key, fnName(fn), c.pos(bin.Pos()), "the reset test compares the chunk numbers of two postings")
+					} else {
+						other := bin.X
+						if qx {
+							other = bin.Y
+						}
+						r.bad(key, fnName(fn), c.pos(bin.Pos()), "inside the skip loop a posting's chunk number is compared with "+exprSig(other, 0)+", which is not the chunk of the previous posting: the entries of a new chunk that were stepped over are not counted, and the decoders return the frequency, norm and locations of an earlier document")
+					}
+				}
+			}
+			if n == 0 {
+				r.undecided(key, fnName(fn), c.pos(fn.Pos()), "no chunk comparison found in the skip loop of the clean path")
+			}
+		},
+	})
+}
+
